@@ -81,7 +81,13 @@ def random_script(rng, kind, elem, cap, nops, old_iface=False, old_vec=False):
                 if not old_iface: el[d] = []
             continue
         n = len(el[c]); r = rng.random()
-        if r < 0.18: lines.append("PushBack %d %d" % (c, v)); el[c] = cut(el[c] + [v])
+        if r < 0.05 and kind == "vec" and n:      # the argument is an element of the vector itself
+            i = rng.randrange(0, n); w = rng.choice(["PushBackSelf", "EmplaceBackSelf", "InsertSelf"])
+            if w == "InsertSelf":
+                p = rng.randrange(0, n + 1); lines.append("InsertSelf %d %d %d" % (c, p, i)); el[c].insert(p, el[c][i])
+            else:
+                lines.append("%s %d %d" % (w, c, i)); el[c] = el[c] + [el[c][i]]
+        elif r < 0.18: lines.append("PushBack %d %d" % (c, v)); el[c] = cut(el[c] + [v])
         elif r < 0.26: lines.append("EmplaceBack %d %d" % (c, v)); el[c] = cut(el[c] + [v])
         elif r < 0.38 and kind == "vec":
             p = rng.randrange(0, n + 1); lines.append("%s %d %d %d" % (rng.choice(["Insert", "Emplace"]), c, p, v)); el[c].insert(p, v)
